@@ -198,6 +198,15 @@ theorem kp_reject_no_encoding (env : Env) (ev : KpEvent) (h : ∀ t ∈ ev.tags,
 theorem kp_reject_bad_tags (env : Env) (ev : KpEvent) (h : ¬ KpTagsSpec env ev.tags) : parseKp env ev ≠ .ok :=
   fun hk => h ((kp_accept_iff env ev).mp hk).2.1
 
+/-- **trailing bytes in the content**: a kind-443 event whose content is a valid key package followed by
+    further bytes is refused (`KeyPackageIn::tls_deserialize_exact`; rests on `Generated.kpDeserializeExact`,
+    re-extracted on every run — if the reader-based call comes back the fact flips and this proof breaks) -/
+theorem kp_reject_trailing_content (env : Env) (ev : KpEvent) (h : ev.content = .trailing) :
+    parseKp env ev ≠ .ok := by
+  intro hk
+  have := ((kp_accept_iff env ev).mp hk).2.2.2.1
+  rw [h] at this; cases this
+
 /-- **what the library writes, its own parser accepts** — provided the relay list is not empty -/
 theorem kp_create_accepted (env : Env) (relays : List Bytes) (p : Bool) (ref author : Bytes)
     (hne : relays ≠ []) (hr : ∀ r ∈ relays, (env.relayParse r).isSome = true)
@@ -327,8 +336,8 @@ theorem welcome_reject_non_base64 (env : Env) (r : Rumor) (t : Tag) (ht : t ∈ 
   | false => rfl
   | true => exact absurd (((welcome_accept_iff env r).mp hval).encodingExact t ht hn) hv
 
-/-- **what the library writes, its own parser accepts** — provided the group has at least one relay -/
-theorem welcome_create_accepted (env : Env) (relays : List Bytes) (eid : Bytes)
+/-- what the tag writer produces for a non-empty relay list is accepted -/
+theorem welcome_tags_accepted (env : Env) (relays : List Bytes) (eid : Bytes)
     (hne : relays ≠ []) (hr : ∀ r ∈ relays, (env.relayParse r).isSome = true) (he : eid ≠ []) :
     validateWelcome env { kind := Generated.kindMlsWelcome, tags := welcomeCreate relays eid } = true := by
   rw [welcome_accept_iff]
@@ -347,20 +356,61 @@ theorem welcome_create_accepted (env : Env) (relays : List Bytes) (eid : Bytes)
   · exact ⟨{ name := .e, vals := [eid] }, by simp [welcomeCreate], rfl, eid, rfl, he⟩
   · exact ⟨{ name := .encoding, vals := [Generated.encodingTagValue] }, by simp [welcomeCreate], rfl⟩
 
-/-- the full-strength statement (any relay list, including the empty one) — FALSE of the code -/
-def welcome_create_accepted_full : Prop :=
-  ∀ (env : Env) (relays : List Bytes) (eid : Bytes),
-    (∀ r ∈ relays, (env.relayParse r).isSome = true) → eid ≠ [] →
-    validateWelcome env { kind := Generated.kindMlsWelcome, tags := welcomeCreate relays eid } = true
+/-- **whatever an invitation produces, `process_welcome` accepts** — the FULL statement, for every relay
+    list including the empty one: since the repair "inviting members requires at least one relay"
+    (`Generated.inviteRequiresRelay`, re-extracted on every run) an empty relay list produces NO rumor
+    (`create_group` / `add_members` return `Err(Error::Group)`), and every rumor that is produced passes
+    validation and, with its own (exact) content, the whole of `process_welcome`.  If the precondition is
+    removed from the source the fact flips and this proof breaks; the former witness stays in
+    corpus/C15/zero_relays.trace as a regression trace. -/
+theorem welcome_create_accepted (env : Env) (relays : List Bytes) (eid : Bytes) (tags : List Tag)
+    (hr : ∀ r ∈ relays, (env.relayParse r).isSome = true) (he : eid ≠ [])
+    (hprod : inviteTags relays eid = some tags) :
+    processWelcome env { rumor := { kind := Generated.kindMlsWelcome, tags := tags }, content := .ok } = .ok := by
+  have hfact : Generated.inviteRequiresRelay = true := by decide
+  unfold inviteTags at hprod
+  cases relays with
+  | nil => simp [hfact] at hprod
+  | cons r rs =>
+    simp only [hfact, List.isEmpty_cons, Bool.and_false, Bool.false_eq_true, if_false, Option.some.injEq] at hprod
+    subst hprod
+    have hv := welcome_tags_accepted env (r :: rs) eid (by simp) hr he
+    have henc : hasBase64Encoding (welcomeCreate (r :: rs) eid) = true := by
+      simp [hasBase64Encoding, welcomeCreate, Tag.content]; decide
+    simp [processWelcome, hv, henc]
 
-/-- witness: a group created with ZERO relays produces welcome rumors whose `["relays"]` tag has no
-    value; `validate_welcome_event` then never sets `has_relays` and `process_welcome` returns
-    `InvalidWelcomeMessage` — corpus/C15/zero_relays.trace -/
-theorem welcome_create_zero_relays_refused : ¬ welcome_create_accepted_full := by
-  intro h
-  have := h stdEnv [] [52, 50] (by intro r hr; cases hr) (by decide)
-  revert this
-  decide
+/-- an invitation without any relay produces nothing -/
+theorem invite_zero_relays_refused (eid : Bytes) : inviteTags [] eid = none := by
+  have hfact : Generated.inviteRequiresRelay = true := by decide
+  simp [inviteTags, hfact]
+
+example : ∃ tags, inviteTags [[119, 115, 115, 58, 47, 47, 97, 46, 105, 111]] [52, 50] = some tags := ⟨_, rfl⟩
+
+/-- **trailing bytes in the content**: a rumor whose content is a valid MLS welcome message followed by
+    further bytes is refused (rests on `Generated.welcomeRejectsTrailing`) -/
+theorem welcome_reject_trailing_content (env : Env) (ev : WelcomeEvent) (h : ev.content = .trailing) :
+    processWelcome env ev ≠ .ok := by
+  have hfact : Generated.welcomeRejectsTrailing = true := by decide
+  unfold processWelcome
+  rw [h]
+  by_cases h1 : validateWelcome env ev.rumor = false
+  · simp [h1]
+  · by_cases h2 : hasBase64Encoding ev.rumor.tags = false
+    · simp [h1, h2]
+    · simp [h1, h2, hfact]
+
+/-- `process_welcome` accepts only validated rumors with exact content -/
+theorem welcome_process_ok (env : Env) (ev : WelcomeEvent) (h : processWelcome env ev = .ok) :
+    WelcomeSpec env ev.rumor ∧ ev.content = .ok := by
+  have hfact : Generated.welcomeRejectsTrailing = true := by decide
+  unfold processWelcome at h
+  by_cases h1 : validateWelcome env ev.rumor = false
+  · simp [h1] at h
+  · have h1' : validateWelcome env ev.rumor = true := by simpa using h1
+    by_cases h2 : hasBase64Encoding ev.rumor.tags = false
+    · simp [h1, h2] at h
+    · cases hc : ev.content <;> simp [h1, h2, hc, hfact] at h
+      exact ⟨(welcome_accept_iff env ev.rumor).mp h1', rfl⟩
 
 /-! ### 6. imeta tags -/
 
